@@ -43,6 +43,20 @@ func genPrograms(seed uint64, stream string, nFlows, nPars int, o prog.GenOpts, 
 		r := prog.NewRand(seed, hashS(stream+"/par"), uint64(i))
 		out = append(out, prog.GenPar(r, fmt.Sprintf("q%04d", i), o))
 	}
+	// two directives per file: a program becomes the guest of its predecessor
+	if o.PairPct > 0 {
+		pr := prog.NewRand(seed, hashS(stream+"/pairs"))
+		for i := 0; i+1 < len(out); i++ {
+			a, b := out[i], out[i+1]
+			if a.Guest != nil || a.Host != "" || b.Host != "" || a.HasFeature("spell4") || b.HasFeature("spell4") || a.AutoInstrument != b.AutoInstrument {
+				continue
+			}
+			if pr.Intn(100) < o.PairPct {
+				a.Guest, b.Host = b, a.Name
+				i++
+			}
+		}
+	}
 	for i := 0; i < o.Wide; i++ {
 		out = append(out, prog.GenWide(i+int(seed%7), fmt.Sprintf("w%04d", i), o))
 	}
